@@ -231,6 +231,11 @@ WITNESSES = [
 ]
 
 
+import findings  # noqa: E402
+for _fn, _fi, _fb in findings.C09_SESSIONS:
+    BOUNDED.append({"name": _fn, "kind": "session-alive", "props": ["C09"], "input": [_fi], "n_inputs": 1, "bound": _fb + ": every request answered, no panic, 40 + 2 answered with 42", "expect": {}})
+
+
 def build(tier):
     u = UnitFile("session")
     u.raw(common.HEADER)
